@@ -1,0 +1,42 @@
+//go:build verif
+
+package ratelimiter
+
+import "time"
+
+// VerifConstants exposes the unexported token-bucket parameters to the
+// verification harness (build tag verif only).
+type VerifConst struct {
+	Name string
+	Val  uint64
+}
+
+func VerifConstants() []VerifConst {
+	return []VerifConst{
+		{"packetsPerSecond", packetsPerSecond},
+		{"packetsBurstable", packetsBurstable},
+		{"garbageCollectTime", uint64(garbageCollectTime)},
+		{"packetCost", packetCost},
+		{"maxTokens", maxTokens},
+	}
+}
+
+// VerifSetClock replaces the limiter's clock.  Call after Init.
+func (rate *Ratelimiter) VerifSetClock(now func() time.Time) {
+	rate.mu.Lock()
+	rate.timeNow = now
+	rate.mu.Unlock()
+}
+
+// VerifCleanup runs one garbage-collection pass and reports whether the
+// table is empty afterwards.
+func (rate *Ratelimiter) VerifCleanup() bool {
+	return rate.cleanup()
+}
+
+// VerifTableLen reports the number of tracked addresses.
+func (rate *Ratelimiter) VerifTableLen() int {
+	rate.mu.RLock()
+	defer rate.mu.RUnlock()
+	return len(rate.table)
+}
